@@ -194,6 +194,10 @@ def term(expr: ast.AST | None, env: dict[str, Term] | None = None) -> Term:
         # functools.reduce(operator.add, xs, init) is sum(xs, start=init) (a left fold with +)
         if q == 'functools.reduce' and len(args) in (2, 3) and not kwargs and canon_lambda(args[0]) == ('lambda', ('_a', '_b'), ('binop', '+', ('var', '_a'), ('var', '_b'))):
             return ('call', ('var', 'sum'), (args[1],), (('start', args[2]),) if len(args) == 3 else ())
+        # jax.tree.reduce(operator.add, tree, init) is sum(jax.tree.leaves(tree), start=init) (a left fold over the leaves)
+        if q in ('jax.tree.reduce', 'jax.tree_util.tree_reduce') and len(args) in (2, 3) and not kwargs and canon_lambda(args[0]) == ('lambda', ('_a', '_b'), ('binop', '+', ('var', '_a'), ('var', '_b'))):
+            leaves = ('call', ('attr', ('attr', ('var', 'jax'), 'tree'), 'leaves'), (args[1],), ())
+            return ('call', ('var', 'sum'), (leaves,), (('start', args[2]),) if len(args) == 3 else ())
         # typing.cast(T, x) is x
         if q in ('typing.cast', 'typing_extensions.cast') and len(args) == 2 and not kwargs:
             return args[1]
